@@ -118,7 +118,7 @@ def check(ctx):
         sentinel_guard = (("cmp", ("Eq",), (slot0, ("const", "0.0"))), False)      # `if entry != '0.0': entry = wrap(entry)`
         gs = [(simp(c), p) for c, p in f.guards]
         cond_store = sentinel_guard in gs
-        rest = [g for g in gs if g != sentinel_guard]
+        rest = list(dict.fromkeys(g for g in gs if g != sentinel_guard))        # (the same test twice -- caller and helper -- is one condition)
         g_ok = len(rest) == 1 and rest[0][1] is True and m.is_has_thermal(rest[0][0])
         # wrong: applied unconditionally, or under the negated / only under the thermal flag plus nothing else that is understood;
         # a further condition that is not understood is "cannot decide"
